@@ -86,4 +86,25 @@ CHECKS = {
             job("life", "c18", ["TestC18Lifetime"], 400, 5000, 2, 10),
         ],
     },
+    "C14": {
+        "level": "exploration",
+        "exhaustive_claim": False,
+        "manifest": {
+            "technique": "property-based testing, round-trip oracle: an independent record/cell/page/b-tree encoder (written from the file-format spec, cross-validated by SQLite's integrity_check and SELECT in the run) writes rapid-generated records and an exhaustive enumeration of payload lengths; sqlittle must decode bit-identical values",
+            "level_text": "Round-trip search: every value/width/varint-length/page-size combination generated is encoded by a builder that shares no code with the decoder and must be read back identically through Table.Scan, Index.Scan and Select. Payload lengths 2..3U+8 are enumerated completely for U=512 (quick) and U=512,1024,2048 (thorough) in table-leaf, index-leaf and index-interior cells; the other page sizes get the X/M/K neighbourhoods.",
+            "level_note": "Trusts the builder's reading of the format, itself validated against SQLite 3.40.1 on a 1-in-8 sample of generated images and on every violation candidate before it is reported (a disagreement between builder and SQLite is exit 2, not a violation).",
+        },
+        "rule": ("records: 1-12 rows x 1-6 columns (or 120-200 columns for headers > 127 bytes) of grid/random values and long text/blobs sized around the spill thresholds, integers forced through "
+                 "every legal width, optional padded varints (payload size <= 8 bytes, rowid/header size/serial type up to 9), short rows, all 8 page sizes, scattered page numbers, shuffled "
+                 "cells, free blocks, chosen cells-per-page (depth 1-4); each row set is stored in a rowid table and a WITHOUT ROWID table (index cells). Non-trivial = an overflowing payload, a "
+                 "negative integer or a multi-byte varint. payload lengths: one case per (page size, length, cell kind); non-trivial = payload not wholly local. Distinct = fingerprint / key."),
+        "assumptions": ["system libsqlite3 (3.40.1) validates the builder", "usable size == page size (reserved space is refused by sqlittle, see C15)"],
+        "min_nontrivial": {"quick": 1500, "thorough": 8000},
+        "required_classes": ["rec:overflow=true", "rec:widehdr=true", "rec:depth=3", "rec:idxdepth=2", "rec:ps=65536", "lens:ps=512:index-interior", "lens:ps=65536:table-leaf", "rec:sqlite-validated"],
+        "timeout": {"quick": 300, "thorough": 1800},
+        "jobs": [
+            job("records", "c14", ["TestC14Records"], 1200, 12000, 3, 12),
+            job("lens", "c14", ["TestC14PayloadLensEnum", "TestC14PayloadLens"], 1, 1, 1, 4, run="^TestC14PayloadLensEnum$"),
+        ],
+    },
 }
